@@ -32,16 +32,31 @@ class Item(HasTraits):
     value = Int(1)
 
 
+SHARED = Item(value=1000)
+
+
 class Holder(HasTraits):
     """module level (picklable)"""
     base = Int(1)
     child = Instance(Item)
     kids = List(Instance(Item))
     table = Dict(Str, Int)
+    parts = Dict(Str, Instance(Item))
+    config = Instance(Item, SHARED)                               # a CONSTANT default that is an observable object, never assigned
     total = Property(Int, observe="kids.items.value")            # name starts with 't'
     echo = Property(Int, observe="child.value")
     size = Property(Int, observe="table.items")
     plain = Property(Int, observe="base")                        # not cached
+    weight = Property(Int, observe="parts.items.value")
+    scaled = Property(Int, observe="config.value")
+
+    @cached_property
+    def _get_weight(self):
+        return sum(p.value for p in self.parts.values())
+
+    @cached_property
+    def _get_scaled(self):
+        return self.config.value * 2
 
     @cached_property
     def _get_total(self):
@@ -63,14 +78,18 @@ class Holder(HasTraits):
 
 def recompute(h):
     return {"total": sum(k.value for k in h.kids), "echo": h.child.value if h.child is not None else -1,
-            "size": sum(h.table.values()), "plain": h.base * 3}
+            "size": sum(h.table.values()), "plain": h.base * 3, "weight": sum(p.value for p in h.parts.values()),
+            "scaled": h.config.value * 2}
 
 
+PROPS = ("total", "echo", "size", "plain", "weight", "scaled")
 OPS = ["read", "kid_value", "append", "insert_dup", "del", "slice_dup", "remove_first", "child=", "child_value", "table_set",
-       "table_del", "base", "sort_reverse"]
+       "table_del", "base", "sort_reverse", "assign_dup_list", "pop", "part_same", "part_update_same", "part_value", "part_new",
+       "shared_value", "config=", "config_value"]
 
 
-def harness_factory(variant, k):
+def harness_factory(variant, k, first=None):
+    """first: the first operation, fixed per obligation instance only to spread the work over the process pool"""
     def harness(ex):
         errors = []
         push_exception_handler(lambda *a: errors.append(a), reraise_exceptions=False)
@@ -81,69 +100,97 @@ def harness_factory(variant, k):
 
     def body(ex, errors):
         a = Item(value=2)
-        h = Holder(child=Item(value=5), kids=[a, Item(value=3)], table={"x": 1})
-        h.total, h.echo, h.size          # warm the caches before copying
+        dup_start = ex.flag("kids_start_with_a_duplicate")
+        h = Holder(child=Item(value=5), kids=[a, a, Item(value=3)] if dup_start else [a, Item(value=3)], table={"x": 1},
+                   parts={"p": Item(value=4), "q": Item(value=6)})
+        h.total, h.echo, h.size, h.weight          # warm the caches before copying (scaled / config stay untouched on purpose)
         if variant == "unpickled":
             h = pickle.loads(pickle.dumps(h))
         elif variant == "clone":
             h = h.clone_traits()
         a = h.kids[0]
         notes = []
-        for pname in ("total", "echo", "size", "plain"):
+        for pname in PROPS:
             h.on_trait_change(lambda name, new: notes.append((name, new)), pname)
         trace = []
         for step in range(k):
-            op = OPS[ex.choice("op%d" % step, len(OPS))]
+            op = first if (step == 0 and first is not None) else OPS[ex.choice("op%d" % step, len(OPS))]
             before = recompute(h)
             notes.clear()
             n = len(h.kids)
-            if op == "read":
-                g0 = GETTER_CALLS["n"]
-                h.total
-                g1 = GETTER_CALLS["n"]
-                h.total
-                h.total
-                ex.check(GETTER_CALLS["n"] == g1, "a cached getter runs at most once between relevant changes however often it is read")
-            elif op == "kid_value":
-                if n:
-                    h.kids[-1].value += 4
-            elif op == "append":
-                h.kids.append(Item(value=7))
-            elif op == "insert_dup":
-                if n:
-                    h.kids.insert(ex.int("i%d" % step), h.kids[0])
-            elif op == "del":
-                try:
-                    del h.kids[ex.int("i%d" % step)]
-                except IndexError:
-                    pass
-            elif op == "slice_dup":
-                if n:
-                    h.kids[0:1] = [h.kids[0], h.kids[0]]           # one occurrence replaced by two of the same object
-            elif op == "remove_first":
-                if n:
-                    h.kids.remove(h.kids[0])
-            elif op == "child=":
-                h.child = Item(value=20 + step)
-            elif op == "child_value":
-                if h.child is not None:
-                    h.child.value += 1
-            elif op == "table_set":
-                h.table["k%d" % step] = 10 + step
-            elif op == "table_del":
-                h.table.pop("x", None)
-            elif op == "base":
-                h.base += 1
-            elif op == "sort_reverse":
-                h.kids.reverse()
+            try:
+                if op == "read":
+                    g0 = GETTER_CALLS["n"]
+                    h.total
+                    g1 = GETTER_CALLS["n"]
+                    h.total
+                    h.total
+                    ex.check(GETTER_CALLS["n"] == g1, "a cached getter runs at most once between relevant changes however often it is read")
+                elif op == "kid_value":
+                    if n:
+                        h.kids[-1].value += 4
+                elif op == "append":
+                    h.kids.append(Item(value=7))
+                elif op == "insert_dup":
+                    if n:
+                        h.kids.insert(ex.int("i%d" % step), h.kids[0])
+                elif op == "del":
+                    try:
+                        del h.kids[ex.int("i%d" % step)]
+                    except IndexError:
+                        pass
+                elif op == "slice_dup":
+                    if n:
+                        h.kids[0:1] = [h.kids[0], h.kids[0]]           # one occurrence replaced by two of the same object
+                elif op == "remove_first":
+                    if n:
+                        h.kids.remove(h.kids[0])
+                elif op == "child=":
+                    h.child = Item(value=20 + step)
+                elif op == "child_value":
+                    if h.child is not None:
+                        h.child.value += 1
+                elif op == "table_set":
+                    h.table["k%d" % step] = 10 + step
+                elif op == "table_del":
+                    h.table.pop("x", None)
+                elif op == "base":
+                    h.base += 1
+                elif op == "sort_reverse":
+                    h.kids.reverse()
+                elif op == "assign_dup_list":
+                    if n:
+                        h.kids = [h.kids[0], h.kids[0], Item(value=9)]      # hooked up as a whole, with a repeated item
+                elif op == "pop":
+                    if n:
+                        h.kids.pop(0)
+                elif op == "part_same":
+                    h.parts["p"] = h.parts["p"]                  # the same object under its key again
+                elif op == "part_update_same":
+                    h.parts.update(dict(h.parts))
+                elif op == "part_value":
+                    h.parts["p"].value += 3
+                elif op == "part_new":
+                    h.parts["p"] = Item(value=30 + step)
+                elif op == "shared_value":
+                    SHARED.value += 1                            # relevant while config is still the (never assigned) default
+                elif op == "config=":
+                    h.config = Item(value=50 + step)
+                elif op == "config_value":
+                    h.config.value += 1
+            except symx.PathAbort:
+                raise
+            except Exception as e:
+                ex.check(False, "an operation on a healthy object does not raise (%s)" % type(e).__name__)
+                return {"trace": trace + [op]}
             trace.append(op)
             # the first kid (possibly removed meanwhile) changes: the result must follow iff it is still in the list
-            if op in ("slice_dup", "remove_first", "insert_dup", "del") and a is not None:
+            if op in ("slice_dup", "remove_first", "insert_dup", "del", "pop", "assign_dup_list") and a is not None:
                 a.value += 1
             after = recompute(h)
-            for pname in ("total", "echo", "size", "plain"):
+            for pname in PROPS:
                 ex.check(getattr(h, pname) == after[pname], "a read equals what the getter computes from the current state (%s)" % pname)
-            for pname in ("total", "echo", "size", "plain"):
+            for pname in PROPS:
                 got = [x for x in notes if x[0] == pname]
                 if before[pname] != after[pname]:
                     ex.check(len(got) >= 1 and got[-1][1] == after[pname],
@@ -158,8 +205,9 @@ def obligations(tier, build):
     obs = []
     K = 2 if tier == "quick" else 3
     for variant in ("original", "unpickled", "clone"):
-        obs.append(Obligation("stale/%s/k=%d" % (variant, K), harness_factory(variant, K), env=G.env, stubs=STUBS,
-                              bounds={"history length": K, "operations": OPS, "object": variant,
+      for first in OPS:
+        obs.append(Obligation("stale/%s/k=%d/first=%s" % (variant, K, first), harness_factory(variant, K, first), env=G.env, stubs=STUBS,
+                              bounds={"history length": K, "operations": OPS, "object": variant, "first operation": first,
                                       "list positions": "unbounded Int"},
                               leverage="list indices; otherwise choice feasibility only", max_paths=100000, path_wall_s=60))
     return obs
